@@ -2266,4 +2266,39 @@ theorem lntPeripherals_drug_shape (a b : MF) (ks : List Key) (h : lntPeripherals
         · cases hk
 
 
+
+/-! ### `Cls.__sub__` with wildcard operands (after fix f9eda08) -/
+
+theorem modesSub_wild_rhs (k : ModeKind) (a : Modes) : modesSub k a .wild = .ok (.names [k.subDefault]) := by
+  simp [modesSub, Modes.isWild]
+
+theorem modesSub_wild_lhs (k : ModeKind) (b : List String) :
+    ∃ r, modesSub k .wild (.names b) = .ok (.names r) ∧
+      ((∃ x, x ∈ k.wildcard ∧ x ∉ b) → ∀ x, x ∈ r ↔ x ∈ k.wildcard ∧ x ∉ b) ∧
+      ((¬ ∃ x, x ∈ k.wildcard ∧ x ∉ b) → r = [k.subDefault]) := by
+  have hmem : ∀ x, x ∈ k.wildcard.filter (fun y => !b.contains y) ↔ x ∈ k.wildcard ∧ x ∉ b := by
+    intro x; simp [List.mem_filter]
+  by_cases hw : k.wildcard.isEmpty = true
+  · have : k.wildcard = [] := by simpa using hw
+    refine ⟨[k.subDefault], ?_, ?_, fun _ => rfl⟩
+    · simp [modesSub, Modes.isWild, filterNotIn, this, bind, Except.bind]
+    · rintro ⟨x, hx, _⟩; rw [this] at hx; cases hx
+  · let d := k.wildcard.filter (fun y => !b.contains y)
+    refine ⟨if d.isEmpty then [k.subDefault] else d, ?_, ?_, ?_⟩
+    · simp [modesSub, Modes.isWild, filterNotIn, hw, bind, Except.bind, d]
+    · rintro ⟨x, hx⟩
+      have : d.isEmpty = false := by
+        cases hd : d with
+        | nil => have := (hmem x).mpr hx; rw [show k.wildcard.filter (fun y => !b.contains y) = d from rfl, hd] at this; cases this
+        | cons _ _ => rfl
+      intro y; rw [this]; simp only [Bool.false_eq_true, if_false]; exact hmem y
+    · intro hno
+      have : d.isEmpty = true := by
+        cases hd : d with
+        | nil => rfl
+        | cons y ys =>
+          exfalso; apply hno
+          exact ⟨y, (hmem y).mp (by rw [show k.wildcard.filter (fun y => !b.contains y) = d from rfl, hd]; exact List.mem_cons_self)⟩
+      rw [this]; rfl
+
 end Pharmpy.C18
